@@ -12,6 +12,7 @@ import importlib
 import inspect
 import json
 import pkgutil
+import re
 import sys
 import types
 import uuid
@@ -38,6 +39,8 @@ def dump(v, depth=0):
         return {"k": "bytes", "hex": bytes(v).hex()}
     if isinstance(v, uuid.UUID):
         return {"k": "uuid", "hex": v.hex}
+    if isinstance(v, re.Pattern) and isinstance(v.pattern, str):
+        return {"k": "regex", "pattern": v.pattern, "flags": int(v.flags) & ~int(re.UNICODE)}  # an immutable compiled pattern
     if isinstance(v, type):
         return {"k": "class", "ref": ref_of(v)}
     if isinstance(v, types.ModuleType):
